@@ -747,41 +747,36 @@ impl Worker {
             }
         }
 
-        // ---- C13: implementations agree in this state (dumps and every probe answer)
-        if self.mon("C13") {
-            let base = (0..nsut).find(|&i| !sts[i].diverged);
-            if let Some(b) = base {
-                for i in 0..nsut {
-                    if i == b || sts[i].diverged {
-                        continue;
+        // ---- C13 / C16: implementations agree in this state (dumps and every probe answer)
+        for (b, i, tag) in self.cross_pairs() {
+            if sts[i].diverged || sts[b].diverged {
+                continue;
+            }
+            stats.eval(tag);
+            if sts[i].sdump != sts[b].sdump {
+                find!(tag, i, "state-differs", None, "stored state differs from {}: {:?} vs {:?}", self.suts[b].name(), sts[i].sdump, sts[b].sdump);
+            }
+            let norm = |r: &SResp| -> SResp {
+                // HTTP cannot tell an unknown client from not-found
+                match r {
+                    SResp::NoSuchClient => SResp::GcNotFound,
+                    SResp::GsNone => SResp::GcNotFound,
+                    x => x.clone(),
+                }
+            };
+            for (k, r) in &gc_answers[b] {
+                if let Some(r2) = gc_answers[i].get(k) {
+                    if norm(r) != norm(r2) {
+                        find!(tag, i, "answer-differs", Some(format!("GetChild({},#{})", (b'A' + k.0) as char, k.1)),
+                            "{} answered {:?}, {} answered {:?}", self.suts[b].name(), r, self.suts[i].name(), r2);
                     }
-                    stats.eval("C13");
-                    if sts[i].sdump != sts[b].sdump {
-                        find!("C13", i, "state-differs", None, "stored state differs from {}: {:?} vs {:?}", self.suts[b].name(), sts[i].sdump, sts[b].sdump);
-                    }
-                    let norm = |r: &SResp| -> SResp {
-                        // HTTP cannot tell an unknown client from not-found
-                        match r {
-                            SResp::NoSuchClient => SResp::GcNotFound,
-                            SResp::GsNone => SResp::GcNotFound,
-                            x => x.clone(),
-                        }
-                    };
-                    for (k, r) in &gc_answers[b] {
-                        if let Some(r2) = gc_answers[i].get(k) {
-                            if norm(r) != norm(r2) {
-                                find!("C13", i, "answer-differs", Some(format!("GetChild({},#{})", (b'A' + k.0) as char, k.1)),
-                                    "{} answered {:?}, {} answered {:?}", self.suts[b].name(), r, self.suts[i].name(), r2);
-                            }
-                        }
-                    }
-                    for (k, r) in &gs_answers[b] {
-                        if let Some(r2) = gs_answers[i].get(k) {
-                            if norm(r) != norm(r2) {
-                                find!("C13", i, "answer-differs", Some(format!("GetSnapshot({})", (b'A' + *k) as char)),
-                                    "{} answered {:?}, {} answered {:?}", self.suts[b].name(), r, self.suts[i].name(), r2);
-                            }
-                        }
+                }
+            }
+            for (k, r) in &gs_answers[b] {
+                if let Some(r2) = gs_answers[i].get(k) {
+                    if norm(r) != norm(r2) {
+                        find!(tag, i, "answer-differs", Some(format!("GetSnapshot({})", (b'A' + *k) as char)),
+                            "{} answered {:?}, {} answered {:?}", self.suts[b].name(), r, self.suts[i].name(), r2);
                     }
                 }
             }
@@ -1051,20 +1046,17 @@ impl Worker {
                     }
                 }
             }
-            // C13 on the transition
-            if self.mon("C13") {
-                let base = (0..nsut).find(|&i| t_resps[i].is_some());
-                if let Some(b) = base {
-                    for i in 0..nsut {
-                        if i == b || t_resps[i].is_none() { continue; }
-                        stats.eval("C13");
-                        if t_resps[i] != t_resps[b] {
-                            find!("C13", i, "answer-differs", opd.clone(), "{} answered {:?}, {} answered {:?}", self.suts[b].name(), t_resps[b], self.suts[i].name(), t_resps[i]);
-                        }
-                        if t_dumps[i] != t_dumps[b] {
-                            find!("C13", i, "state-differs", opd.clone(), "state after the request differs between {} and {}: {:?} vs {:?}", self.suts[b].name(), self.suts[i].name(), t_dumps[b], t_dumps[i]);
-                        }
-                    }
+            // C13 / C16 on the transition
+            for (b, i, tag) in self.cross_pairs() {
+                if t_resps[i].is_none() || t_resps[b].is_none() {
+                    continue;
+                }
+                stats.eval(tag);
+                if t_resps[i] != t_resps[b] {
+                    find!(tag, i, "answer-differs", opd.clone(), "{} answered {:?}, {} answered {:?}", self.suts[b].name(), t_resps[b], self.suts[i].name(), t_resps[i]);
+                }
+                if t_dumps[i] != t_dumps[b] {
+                    find!(tag, i, "state-differs", opd.clone(), "state after the request differs between {} and {}: {:?} vs {:?}", self.suts[b].name(), self.suts[i].name(), t_dumps[b], t_dumps[i]);
                 }
             }
             if !child_ok {
@@ -1178,6 +1170,29 @@ impl Worker {
         out
     }
 
+    /// Pairs (reference, other, monitor) whose answers and states must coincide: all
+    /// implementations against the first (C13); an allow-listed HTTP server against its
+    /// list-less twin on the same backend (C16).
+    fn cross_pairs(&self) -> Vec<(usize, usize, &'static str)> {
+        let mut v = vec![];
+        if self.mon("C13") {
+            for i in 1..self.suts.len() {
+                v.push((0, i, "C13"));
+            }
+        }
+        if self.mon("C16") {
+            for i in 0..self.suts.len() {
+                let sp = self.suts[i].sut.spec;
+                if sp.allow_all {
+                    if let Some(t) = self.suts.iter().position(|s| !s.sut.spec.allow_all && s.sut.spec.is_http() && s.sut.spec.backend == sp.backend) {
+                        v.push((t, i, "C16"));
+                    }
+                }
+            }
+        }
+        v
+    }
+
     /// The library implementation over the same backend kind (C14's twin).
     fn twin_of(&self, i: usize) -> Option<usize> {
         let sp = self.suts[i].sut.spec;
@@ -1191,7 +1206,7 @@ impl Worker {
 // ---------------------------------------------------------------------------------------------
 // (de)serialisation for the worker-process protocol
 
-const MONITORS: &[&str] = &["C01", "C02", "C07", "C08", "C09", "C10", "C11", "C12", "C13", "C14", "C18", "C20", "REPLAY", "MACHINERY", "ENV"];
+const MONITORS: &[&str] = &["C01", "C02", "C07", "C08", "C09", "C10", "C11", "C12", "C13", "C14", "C16", "C18", "C20", "REPLAY", "MACHINERY", "ENV"];
 
 fn static_mon(s: &str) -> &'static str {
     MONITORS.iter().find(|m| **m == s).copied().unwrap_or("MACHINERY")
@@ -1199,7 +1214,7 @@ fn static_mon(s: &str) -> &'static str {
 
 fn spec_from_name(n: &str) -> Option<SutSpec> {
     use crate::sut::*;
-    [MEM_LIB, SQL_LIB, SQL_LIB_REOPEN, MEM_HTTP, SQL_HTTP].into_iter().find(|s| s.name() == n)
+    [MEM_LIB, SQL_LIB, SQL_LIB_REOPEN, MEM_HTTP, SQL_HTTP, MEM_HTTP_ALLOW, SQL_HTTP_ALLOW].into_iter().find(|s| s.name() == n)
 }
 
 pub fn params_to_json(p: &SeqParams) -> Value {
